@@ -236,7 +236,9 @@ def overflow_attr(kind, op, tag, diag):
     if tag in ("native", "undefined"):
         return ["C12"]
     if kind == "OvConvF" and diag is not None:
-        return ["C07"] if diag in ("ub", "unreachable", "timeout") else ["C06"]
+        # the only undefined operation of a checked conversion from floating point is the cast of a value outside the
+        # destination's range, i.e. an overflow that was not detected: such an event fails C06 ("if") as well as C07
+        return ["C06", "C07"] if diag == "ub" else ["C07"] if diag in ("unreachable", "timeout") else ["C06"]
     if diag is None:
         return ["C06", "C07"]
     if diag in ("ub", "unreachable", "timeout"):
